@@ -16,7 +16,7 @@ pub fn files_digest(dir: &str) -> String {
     if let Ok(rd) = std::fs::read_dir(dir) {
         for e in rd {
             let n = e.unwrap().file_name().into_string().unwrap();
-            if n.contains("-nun.") {
+            if n.contains("-nun.") || n == "is-oplog.valid" || n == "oplog-nun.op" {
                 names.push(n);
             }
         }
